@@ -83,6 +83,7 @@ def NSAttr.builder (a : NSAttr) : AttributeBuilder :=
 /-- A namespace declaration item: both strings are interned, the pair of ids is recorded. -/
 theorem step_decl {b : Builder} {eb : ElementBuilder} (heb : b.eb = some eb) (a : NSAttr) {p : Str}
     (hd : a.declares = some p) (hw : WellSpelled a.pieces)
+    (hres : reservedDecl p (valueOf true a.pieces) = false)
     (hnew : (eb.namespaces.any fun d => d.1 == (b.env.internPrefix p).2) = false) :
     b.step a.token = .ok { b with
       env := ((b.env.internPrefix p).1.internNamespace (valueOf true a.pieces)).1,
@@ -95,7 +96,7 @@ theorem step_decl {b : Builder} {eb : ElementBuilder} (heb : b.eb = some eb) (a 
         [((b.env.internPrefix p).2, ((b.env.internPrefix p).1.internNamespace (valueOf true a.pieces)).2)] } } := by
     intro sp
     unfold Builder.prefix
-    simp only [hparse, heb, hnew, Bool.false_eq_true, if_false]
+    simp only [hparse, hres, heb, hnew, Bool.false_eq_true, if_false]
   unfold NSAttr.declares at hd
   simp only [NSAttr.token, Builder.step]
   by_cases h1 : (a.pfx.text == xmlnsStr) = true
@@ -142,6 +143,7 @@ theorem step_ord {b : Builder} {eb : ElementBuilder} (heb : b.eb = some eb) (a :
     ordinary attributes are collected. -/
 theorem run_attrs_ns (rest : List Token) (lexErr : Option Nat) : ∀ (attrs : List NSAttr) (b : Builder)
     (eb : ElementBuilder), b.eb = some eb → (∀ a ∈ attrs, WellSpelled a.pieces) →
+    (∀ d ∈ declsOf attrs, reservedDecl d.1 d.2 = false) →
     (∀ d ∈ eb.namespaces, ∃ q, q ∈ b.env.prefixes ∧ d.1 = b.env.prefixes.idxOf q ∧
       q ∉ (declsOf attrs).map Prod.fst) →
     ((declsOf attrs).map Prod.fst).Nodup →
@@ -156,20 +158,23 @@ theorem run_attrs_ns (rest : List Token) (lexErr : Option Nat) : ∀ (attrs : Li
   intro attrs
   induction attrs with
   | nil =>
-    intro b eb heb _ _ _ _
+    intro b eb heb _ _ _ _ _
     simp only [List.map_nil, List.nil_append, declsOf, ordinary, List.filterMap_nil, List.filter_nil, declIds,
       List.append_nil]
     congr 1
     cases b; simp_all
   | cons a as ih =>
-    intro b eb heb hw hns hnd hna
+    intro b eb heb hw hres hns hnd hna
     have hwa := hw a (by simp)
     have hws : ∀ x ∈ as, WellSpelled x.pieces := fun x hx => hw x (by simp [hx])
     simp only [List.map_cons, List.cons_append, Builder.run]
     cases hd : a.declares with
     | some p =>
-      rw [declsOf_cons_decl hd] at hns hnd ⊢
+      rw [declsOf_cons_decl hd] at hns hnd hres ⊢
       rw [ordinary_cons_decl hd] at hna ⊢
+      have hresa : reservedDecl p (valueOf true a.pieces) = false :=
+        hres (p, valueOf true a.pieces) (List.mem_cons_self ..)
+      have hress : ∀ d ∈ declsOf as, reservedDecl d.1 d.2 = false := fun d hd' => hres d (List.mem_cons_of_mem _ hd')
       simp only [List.map_cons] at hns hnd
       obtain ⟨hpn, hnd'⟩ := List.nodup_cons.mp hnd
       have hnew : (eb.namespaces.any fun d => d.1 == (b.env.internPrefix p).2) = false := by
@@ -180,7 +185,7 @@ theorem run_attrs_ns (rest : List Token) (lexErr : Option Nat) : ∀ (attrs : Li
         intro he
         have : b.env.prefixes.idxOf q = b.env.prefixes.idxOf p := by rw [← hdq]; exact he
         exact hqn (by rw [idxOf_inj hq this]; simp)
-      rw [step_decl heb a hd hwa hnew]
+      rw [step_decl heb a hd hwa hresa hnew]
       simp only
       have happ : EnvApp b.env ((b.env.internPrefix p).1.internNamespace (valueOf true a.pieces)).1 :=
         (internPrefix_app b.env p).trans (internNamespace_app _ _)
@@ -190,7 +195,7 @@ theorem run_attrs_ns (rest : List Token) (lexErr : Option Nat) : ∀ (attrs : Li
             [((b.env.internPrefix p).2, ((b.env.internPrefix p).1.internNamespace (valueOf true a.pieces)).2)] } }
         { eb with namespaces := eb.namespaces ++
             [((b.env.internPrefix p).2, ((b.env.internPrefix p).1.internNamespace (valueOf true a.pieces)).2)] }
-        rfl hws ?_ hnd' hna]
+        rfl hws hress ?_ hnd' hna]
       · simp only [declIds, List.append_assoc, List.singleton_append]
       · intro d hdm
         simp only [List.mem_append, List.mem_singleton] at hdm
@@ -203,7 +208,7 @@ theorem run_attrs_ns (rest : List Token) (lexErr : Option Nat) : ∀ (attrs : Li
           rw [idxOf_app (internNamespace_app _ _).1 (internPrefix_mem b.env p)]
           exact (internPrefix_idx b.env p).symm
     | none =>
-      rw [declsOf_cons_ord hd] at hns hnd ⊢
+      rw [declsOf_cons_ord hd] at hns hnd hres ⊢
       rw [ordinary_cons_ord hd] at hna ⊢
       have hnew : (eb.attributes.any fun ab => ab.pfx == a.pfx.text && ab.name == a.loc.text) = false := by
         rw [List.any_eq_false]
@@ -216,7 +221,7 @@ theorem run_attrs_ns (rest : List Token) (lexErr : Option Nat) : ∀ (attrs : Li
       rw [step_ord heb a hd hwa hnew]
       simp only
       rw [ih { b with eb := some { eb with attributes := eb.attributes ++ [a.builder] } }
-        { eb with attributes := eb.attributes ++ [a.builder] } rfl hws hns hnd ?_]
+        { eb with attributes := eb.attributes ++ [a.builder] } rfl hws hres hns hnd ?_]
       · simp only [List.map_cons, List.append_assoc, List.singleton_append]
       · simpa [NSAttr.builder, List.map_append, List.append_assoc] using hna
 
